@@ -161,6 +161,13 @@ fn main() {
         acc.case("long-lists", &bars, &l, false);
         acc.case("long-lists", &bars, &l, true);
     }
+    // Part A3: a platform whose MMIO mappings are 1, 2 or 4 bytes off.
+    for skew in [1usize, 2, 4] {
+        acc.evals += 1;
+        for (k, d) in c11::skewed_mapping_case(skew) {
+            acc.viols.push(("skewed-mapping".to_string(), k, d));
+        }
+    }
     // Part B: BAR kinds and offset/length boundaries, one or two deviating capabilities.
     let bar_opts: Vec<(BarKind, u64)> = vec![
         (BarKind::Mem64 { size: GOOD_BAR_SIZE, prefetch: true }, GOOD_BAR_ADDR + 0x1_0000_0000),
